@@ -337,7 +337,14 @@ Definition conv_oracle_x (nomodel : bool) (cfg : config) (be : backend) (obs exp
                      end)
                  (* the connection handler never finished: a command was left without its reply *)
                  ++ (match assoc1 "served" obs with
-                     | Some w => if sx_is "t" w then [] else [bs "C04"; bs "C20"]
+                     | Some w => if sx_is "t" w then []
+                                 else [bs "C04"; bs "C20"]
+                                      (* an LMTP handler that hangs once the message was handed over: the final
+                                         response never comes (C13: "never deadlocks") *)
+                                      ++ (if cf_lmtp cfg
+                                             && existsb (fun e => match e with EData _ _ _ _ | EDelivery _ _ _ _ => true
+                                                                  | _ => false end) (evs ++ dels)
+                                          then [bs "C13"] else [])
                      | None => []
                      end))
       | _, _, _ => [bs "UNDECODABLE-OBSERVATION"]
